@@ -10,6 +10,11 @@ CHECKS = {
    technique='Lean 4 proof (induction on fuel and child list, Knaster-Tarski uniqueness) + differential correspondence',
    design='C08'),
 }
+CHECKS['C12'] = dict(
+   text='Theorems (Props/C12.lean): the model of query.py computes exactly the sets the property names (traversable_iff, surface = traversable children of reached steps without duplicates, defense surface / enabled defenses partition the non-suppressed defenses) and updating a surface with the newly compromised nodes has the same members as recomputing it (incremental_eq_recomputed, update_after_compromises) for every graph with converse edges and mirrored attackers, no size bound. Tied to query.py / node.py by histories of compromises with incremental updates run on the real code and the model; purity checked by comparing the graph state before/after each query.',
+   note='hypotheses of the incremental law are the ones the API documents: consistent structure (C09), mirrored attackers (C11), the nodes passed are the newly compromised ones; purity of the real functions is a correspondence result, not a theorem',
+   technique='Lean 4 proof (list induction, monotonicity of traversability) + differential correspondence',
+   design='C12')
 NOT_YET = {}
 def main():
     props = [json.loads(l) for l in open(os.path.join(HERE, 'properties.jsonl'))]
